@@ -243,7 +243,7 @@ def tlc_trace(family, module, cfg, trace, timeout=3600, tag=None, heap="4g", def
     with open(trace) as f:
         for line in f:
             # keys are written in sorted order: a big "case" object may precede "ev"
-            is_reset = '"ev":"reset"' in line
+            is_reset = '"ev":"reset"' in line or '"ev": "reset"' in line      # serde_json / json.dumps spelling
             has_reset = has_reset or is_reset
             if cur and cur_bytes >= CHUNK_BYTES and (is_reset or not has_reset):
                 parts.append(cur)
